@@ -223,6 +223,15 @@ def lang_scenarios():
                 ('%s in Fill([(..)])' % cls.__name__, cls, Fill([(1, Spec(b))])),
                 ('%s in Fill({k: ..})' % cls.__name__, cls, Fill({'k': Spec(b)})),
                 ('%s in an Iter consumed by a later step' % cls.__name__, cls, (Iter(b), list))]
+    class RegistryMiss(LookupError):
+        pass
+
+    class Registry:
+        def __getitem__(self, key):
+            raise RegistryMiss('exhausted', 7)
+    # a LookupError that is neither a KeyError nor an IndexError, raised by a target's own __getitem__ under a T[...] step
+    out.append(('a LookupError subclass from __getitem__ under T[..]', RegistryMiss, T['reg']['k'], lambda: {'reg': Registry()}))
+    out.append(('a LookupError subclass from __getitem__ under Path(T[..])', RegistryMiss, glom.Path(T['reg']['k']), lambda: {'reg': Registry()}))
     out.append(('a class that cannot be subclassed, in a callable', Final, boom(Final)))
     out.append(('a class that cannot be subclassed, in a chain', Final, ('a', boom(Final))))
     return out
@@ -230,8 +239,8 @@ def lang_scenarios():
 
 def run_lang(case):
     import glom
-    name, cls, spec = lang_scenarios()[case['i']]
-    target = [{'a': 1}] if 'Iter' in name or 'list spec' in name else {'a': 1}
+    name, cls, spec, *own = lang_scenarios()[case['i']]
+    target = own[0]() if own else [{'a': 1}] if 'Iter' in name or 'list spec' in name else {'a': 1}
     problems = []
     for entry, call in (('glom', lambda **kw: glom.glom(target, spec, **kw)), ('Glommer', lambda **kw: glom.Glommer().glom(target, spec, **kw))):
         try:
